@@ -75,9 +75,9 @@ struct Boxed
     Boxed(long x, xercesc::MemoryManager& m) : v(x), blk(m.allocate(8)), mm(&m) {}
     Boxed(const Boxed& o, xercesc::MemoryManager& m) : v(o.v), blk(m.allocate(8)), mm(&m) {}
     ~Boxed() { if (blk) mm->deallocate(blk); }
+    Boxed& operator=(const Boxed& o) { v = o.v; return *this; }      // keeps its own block
 private:
     Boxed(const Boxed&);
-    Boxed& operator=(const Boxed&);
 };
 XALAN_USES_MEMORY_MANAGER(Boxed)
 }
@@ -108,6 +108,7 @@ struct PeekList : public BList
 
 typedef ReusableArenaBlock<Boxed, unsigned short> RBlock;
 typedef XalanDeque<long> LDeque;
+typedef XalanVector<Boxed> BVec;
 
 struct PeekBlock : public RBlock
 {
@@ -122,6 +123,7 @@ struct State
     RBlock* arena = 0;
     std::vector<bool> isObj;
     LDeque* deque = 0;
+    BVec* bvec = 0;
     FaultManager* fm = 0;
     BList* list = 0;
     LVec* vec = 0;
@@ -135,6 +137,7 @@ struct State
         created.clear();
         arena = 0; isObj.clear();
         deque = 0;
+        bvec = new BVec(*fm);
     }
 };
 
@@ -161,6 +164,27 @@ static std::string showVec(State& s)
     o << s.vec->size() << " " << s.vec->capacity() << " :";
     for (size_t i = 0; i < s.vec->size(); ++i) o << " " << (*s.vec)[i];
     return o.str();
+}
+
+static std::string showBVec(State& s)
+{
+    std::ostringstream o;
+    o << s.bvec->size() << " " << s.bvec->capacity() << " :";
+    for (size_t i = 0; i < s.bvec->size(); ++i) o << " " << (*s.bvec)[i].v;
+    return o.str();
+}
+
+// one operation on the vector of allocating elements; returns false for an unknown op
+static bool doBv(State& s, const std::string& b, long x, long y)
+{
+    if (b == "push") { Boxed t(x, g_plain); s.bvec->push_back(t); }
+    else if (b == "reserve") s.bvec->reserve(size_t(x));
+    else if (b == "pop") s.bvec->pop_back();
+    else if (b == "clear") s.bvec->clear();
+    else if (b == "resize") { Boxed t(y, g_plain); s.bvec->resize(size_t(x), t); }
+    else if (b == "copy") { BVec c(*s.bvec, *s.fm); }
+    else return false;
+    return true;
 }
 
 static bool dequeLastNull(State& s) { return !s.deque->m_blockIndex.empty() && s.deque->m_blockIndex.back() == 0; }
@@ -320,6 +344,34 @@ int main()
                 if (out == "ub") dead = true;
                 std::cout << tail(s, out, showVec(s)) << "\n";
             }
+            else if (a == "bv")
+            {
+                long y = 0; in >> y;
+                if (b == "destroy")
+                {
+                    BVec* v = s.bvec; FaultManager* fm = s.fm;
+                    if (!survives([v, fm]() { long b0 = fm->bad; delete v; if (fm->bad != b0) _exit(9); })) out = "ub";
+                    else
+                    {
+                        delete s.bvec; s.bvec = new BVec(*s.fm);
+                        std::cout << tail(s, out, "destroyed") << "\n";
+                        continue;
+                    }
+                }
+                else if (b == "pop" && s.bvec->empty()) out = "ub";
+                else
+                {
+                    // while the refusal is still pending the operation may unwind through a temporary's destructor:
+                    // run it in a child first, so that a crash / stale free there is a reply and not the end of the harness
+                    State* sp = &s;
+                    bool pending = s.fm->failAt > s.fm->reqs;
+                    if (pending && !survives([sp, b, x, y]() { long b0 = sp->fm->bad; try { doBv(*sp, b, x, y); } catch (const Refused&) {} if (sp->fm->bad != b0) _exit(9); }))
+                        out = "ub";
+                    else if (!doBv(s, b, x, y)) out = "bad";
+                }
+                if (out == "ub") dead = true;
+                std::cout << tail(s, out, showBVec(s)) << "\n";
+            }
             else if (a == "d")
             {
                 if (b == "new") { s.deque = new LDeque(*s.fm, 0, size_t(x)); }
@@ -386,7 +438,7 @@ int main()
         }
         catch (const Refused&)
         {
-            std::cout << tail(s, "oom", a == "l" ? showList(s) : a == "a" ? (s.arena ? showArena(s, false) : std::string("none")) : a == "d" ? showDeque(s) : showVec(s)) << "\n";
+            std::cout << tail(s, "oom", a == "l" ? showList(s) : a == "a" ? (s.arena ? showArena(s, false) : std::string("none")) : a == "d" ? showDeque(s) : a == "bv" ? showBVec(s) : showVec(s)) << "\n";
         }
     }
     return 0;
